@@ -1,21 +1,23 @@
 #!/bin/bash
 # usage: try_patch.sh <patch.diff> <property-id>...   — applies the patch to a scratch copy of /repo
-# (never to /repo itself), runs the named checks against the copy with a scratch evidence dir, removes the copy.
-# exit 0 if at least one named check reports a VIOLATION (the seeded change is caught), 1 otherwise.
+# (never to /repo itself), runs the named checks against the clean copy and the patched copy with a
+# scratch evidence dir, prints the violations that are NEW with the patch, removes the copies.
+# exit 0 if at least one named check reports a new violation (the seeded change is caught), 1 otherwise.
 set -u
 V="$(cd "$(dirname "$0")/.." && pwd)"
 patch="$1"; shift
 scr=$(mktemp -d /tmp/vscr.XXXXXX); ev=$(mktemp -d /tmp/vev.XXXXXX)
 trap 'rm -rf "$scr" "$ev"' EXIT
 git -C /repo archive HEAD | tar -x -C "$scr"
-# carry uncommitted working-tree changes of /repo too
-(cd /repo && git diff HEAD) | (cd "$scr" && git apply --allow-empty 2>/dev/null || true)
-if ! (cd "$scr" && git apply --recount "$patch" 2>/dev/null || patch -p1 -s -f < "$patch" >/dev/null); then echo "PATCH DOES NOT APPLY: $patch"; exit 3; fi
+(cd /repo && git diff HEAD) > "$ev/wt.diff"; [ -s "$ev/wt.diff" ] && (cd "$scr" && patch -p1 -s < "$ev/wt.diff")
 cp "$V/known_findings.json" "$ev/"
 (cd "$V" && ./run.sh build) || exit 2
+for id in "$@"; do "$V/bin/vchk" -repo "$scr" -verif "$ev" -tier "${TIER:-quick}" "$id" 2>&1 | grep -E '\] (VIOLATED|UNDECIDED) ' | sed -E 's/^[^ ]+ //' | sort > "$ev/base.$id"; done
+if ! (cd "$scr" && patch -p1 -s -f < "$patch" >/dev/null); then echo "PATCH DOES NOT APPLY: $patch"; exit 3; fi
 caught=1
 for id in "$@"; do
-  out=$("$V/bin/vchk" -repo "$scr" -verif "$ev" -tier "${TIER:-quick}" "$id" 2>&1)
-  if echo "$out" | grep -q '^VIOLATION'; then caught=0; echo "== $id CAUGHT"; echo "$out" | grep -v '^VIOLATION\|^KNOWN-FINDING\|^property=' | sed "s#$scr/##" | head -${LINES_MAX:-6}; else echo "== $id silent"; fi
+  "$V/bin/vchk" -repo "$scr" -verif "$ev" -tier "${TIER:-quick}" "$id" 2>&1 | grep -E '\] (VIOLATED|UNDECIDED) ' | sed "s#$scr/##" > "$ev/new.$id.full"
+  sed -E 's/^[^ ]+ //' "$ev/new.$id.full" | sort > "$ev/new.$id"
+  if comm -13 "$ev/base.$id" "$ev/new.$id" | grep -q .; then caught=0; echo "== $id CAUGHT ($(comm -13 "$ev/base.$id" "$ev/new.$id" | wc -l) new)"; comm -13 "$ev/base.$id" "$ev/new.$id" | cut -c1-${WIDTH:-330} | head -${LINES_MAX:-5}; else echo "== $id silent"; fi
 done
 exit $caught
